@@ -207,6 +207,62 @@ class traj_xyz(FnContract):
 
 
 @register
+class traj_rpy(FnContract):
+    """roll / pitch / yaw plots.  The Euler angles themselves are the trajectory class's business
+    (get_orientations_euler is replaced by an opaque n x 3 ghost array): what is verified is that angle i of pose k, converted
+    to degrees, is drawn in subplot i at position k against the (shifted) timestamp or the pose index."""
+    name = PL + "traj_rpy"
+    props = ["C20"]
+
+    def cases(self):
+        return [{"stamps": True, "start": False}, {"stamps": True, "start": True}, {"stamps": False, "start": False},
+                {"stamps": False, "start": True}]
+
+    def args(self, c, stamps=True, start=False):
+        _plot_module()
+        t = tm.mk_traj(c, session.loader(), "t", "all", stamps=stamps)
+        t.euler_ghost = c.array("euler", t._n, (3, ))
+        type(t).get_orientations_euler = lambda self, axes="sxyz": self.__dict__.get("euler_ghost")
+        st = c.real("start_timestamp") if start else None
+        if start:
+            c.assume(st != 0)
+        return dict(axarr=[GAxes("roll"), GAxes("pitch"), GAxes("yaw")], traj=t, style="-", color="black", label="", alpha=1.0,
+                    start_timestamp=st)
+
+    def post(self, c, a, res):
+        t = a.traj
+        n, eul = t._n, t.euler_ghost
+        for i, nm in enumerate(("roll", "pitch", "yaw")):
+            ax = a.axarr[i]
+            lines = [ar for (k, ar, kw) in ax.calls if k == "plot"]
+            ok = len(lines) == 1 and len(lines[0]) >= 2
+            yield Clause("subplot_%s_has_one_line" % nm, ok, role="prop")
+            if not ok:
+                continue
+            xs, ys = lines[0][0], lines[0][1]
+            yd = ys if isinstance(ys, sym.SArr) else None
+            yield Clause("subplot_%s_shows_angle_%d_of_every_pose_in_degrees_in_pose_order" % (nm, i), yd is not None and c.And(
+                yd.shape[0] == n, c.forall(n, lambda k: yd.row(k) == npstub.rad2deg(eul.row(k)[i]))), role="prop",
+                note="rad2deg: trusted numpy conversion (uninterpreted, same term on both sides)")
+            if "timestamps" in t.__dict__:
+                ts = t.timestamps
+                off = a.start_timestamp if a.start_timestamp is not None else 0
+                xd = xs if isinstance(xs, sym.SArr) else None
+                yield Clause("subplot_%s_against_the_timestamps_shifted_by_the_start_time" % nm, xd is not None and c.And(
+                    xd.shape[0] == n, c.forall(n, lambda k: xd.row(k) == ts.row(k) - off)), role="prop")
+            else:
+                xd = sym.as_seq(xs)
+                yield Clause("subplot_%s_against_the_pose_index" % nm, c.And(xd.length() == n, c.forall(
+                    n, lambda k: xd.get(k) == k)), role="prop")
+            labs = [ar[0] for (k, ar, kw) in ax.calls if k == "ylabel"]
+            yield Clause("subplot_%s_label_names_the_angle_and_degrees" % nm, len(labs) == 1 and nm in labs[0]
+                         and "deg" in labs[0], role="prop")
+        xl = [ar[0] for (k, ar, kw) in a.axarr[2].calls if k == "xlabel"]
+        yield Clause("x_axis_label_says_time_or_index", len(xl) == 1 and (("$t$ (s)" in xl[0]) if "timestamps" in t.__dict__
+                                                                          else xl[0] == "index"), role="prop")
+
+
+@register
 class add_start_end_markers(FnContract):
     name = PL + "add_start_end_markers"
     props = ["C20"]
